@@ -1640,6 +1640,13 @@ func (s *Netceptor) handleRoutingUpdate(ri *routingUpdate, recvConn string) {
 
 // Handles a ping request.
 func (s *Netceptor) handlePing(md *MessageData) error {
+	if md.FromService == "ping" {
+		// The answer would itself be a ping request to a ping service: this node's own (endless recursion on the
+		// local delivery path, until the stack overflows) or another node's (the two answer each other for ever).
+		// Requests come from the sender's own listener, never from the ping service.
+		return nil
+	}
+
 	return s.sendMessage("ping", md.FromNode, md.FromService, []byte{})
 }
 
